@@ -19,7 +19,39 @@ func (x *Exec) coerce(v Val, ty types.Type) Val {
 }
 
 // assign stores v into the lvalue expression
+// narrowRange: for integer types narrower than 64 bits (other than byte, which is a bit vector here) the inclusive range
+// of representable values; 64-bit integers are treated as mathematical.
+func narrowRange(t types.Type) (lo, hi string, ok bool) {
+	b, isB := t.Underlying().(*types.Basic)
+	if !isB {
+		return "", "", false
+	}
+	if b.Name() == "rune" {
+		return "", "", false // runes are code points, not counters
+	}
+	switch b.Kind() {
+	case types.Int8:
+		return "(- 128)", "127", true
+	case types.Int16:
+		return "(- 32768)", "32767", true
+	case types.Int32:
+		return "(- 2147483648)", "2147483647", true
+	case types.Uint16:
+		return "0", "65535", true
+	case types.Uint32:
+		return "0", "4294967295", true
+	}
+	return "", "", false
+}
+
 func (x *Exec) assign(lhs ast.Expr, v Val, st *State, env *Env) {
+	if env.info != nil && x.c.inContract == 0 && v.T != "" {
+		if lt := env.info.TypeOf(lhs); lt != nil {
+			if lo, hi, ok := narrowRange(lt); ok {
+				x.safety("narrow", lhs, st, and(app("<=", lo, v.T), app("<=", v.T, hi)), "value stored in a "+lt.String()+" fits (integers narrower than 64 bits are checked for overflow; wider ones are mathematical)")
+			}
+		}
+	}
 	switch n := lhs.(type) {
 	case *ast.ParenExpr:
 		x.assign(n.X, v, st, env)
